@@ -47,6 +47,31 @@ def ref_iso4(pin, rnd_bv):
     return head + HexInt.from_bv(rnd_bv).nibs
 
 
+def iso0_two_cards():
+    """format-0 blocks for two card numbers one after the other in the same process: the second block is that of the second card"""
+    def h():
+        pb = P().pinblock
+        lp = choose('pinlen', [4, 6, 12])
+        lcs = choose('panlens', [(16, 16), (14, 13), (19, 16)])
+        pin = hex_string('pin', lp, digits_only=True)
+        pans = [hex_string('pan%d' % i, lc, digits_only=True) for i, lc in enumerate(lcs)]
+
+        def rp():
+            return {'kind': 'iso0_two', 'args': {'pin': concretize_str(pin, ev), 'pans': [concretize_str(p, ev) for p in pans]}}
+        core.set_fallback(rp, 'C13/concretised')
+        for k, pan in enumerate(pans):
+            with guard('Iso0PinBlock.to_bytes', 'C13/iso0-exception', rp):
+                blk = pb.Iso0PinBlock(pin, card_number=pan).to_bytes()
+            require(isinstance(blk, SymBytes) and len(blk) == 8, 'block is not 8 bytes', key='C13/iso0-layout', replay=rp)
+            require(nibs_eq(blk.nibs, ref_iso0(pin, pan)), 'block %d: format-0 block differs from (0,L,PIN,F..) xor (0000,PAN12) of its own card number' % (k + 1),
+                    key='C13/iso0-second-card', replay=rp)
+            with guard('Iso0PinBlock.from_bytes', 'C13/iso0-exception', rp):
+                back = pb.Iso0PinBlock.from_bytes(blk, card_number=pan)
+            require(back.pin == pin, 'block %d does not give the PIN back' % (k + 1), key='C13/iso0-roundtrip', replay=rp)
+        return {'sample': rp()['args'], 'replay': rp()}
+    return h
+
+
 def iso0():
     def h():
         pb = P().pinblock
@@ -142,6 +167,7 @@ def enc(clsname, keylens):
 def obligations(tier):
     return [
         Ob('iso0/clear', iso0(), 300, 'PIN length 4..12 x PAN length 13..19 (all 63 pairs), all digit values', _funcs),
+        Ob('iso0/two-cards-one-process', iso0_two_cards(), 300, 'two card numbers (lengths 16/16, 14/13, 19/16; all digit values) one after the other, PIN length 4/6/12', _funcs),
         Ob('iso4/clear/random-supplied', iso4(True), 300, 'PIN length 4..12, all digits, supplied random fill any non-zero 64-bit value', _funcs),
         Ob('iso4/clear/random-drawn', iso4(False), 300, 'PIN length 4..12, all digits, fill drawn from secrets', _funcs),
         Ob('iso0/tdes', enc('Iso0TDESPinBlockWithVisaPVV', [16, 24]), 300, 'PIN 4..12, PAN 16 digits, all keys of 16 / 24 bytes', _funcs),
